@@ -1,7 +1,7 @@
 (** C08 — all device I/O stays inside the volume.  The address arithmetic is the GENERATED code of
     get_data_cluster_address / _get_total_sectors; the allocator theorem bounds every cluster it can hand out. *)
 From Coq Require Import ZArith List Bool Sorted.
-From PyFatV Require Import Base.Bytes Base.PyEnv Gen.Pure Model.Codec Model.Dir Model.FS Proofs.FatTable Proofs.Geometry.
+From PyFatV Require Import Base.Bytes Base.PyEnv Gen.Pure Model.Codec Model.Dir Model.FS Proofs.FatTable Proofs.Geometry Proofs.Device Proofs.DirCodec Proofs.DirState Proofs.Chains Proofs.FatState Proofs.FileData.
 Import ListNotations.
 Open Scope Z_scope.
 
@@ -32,5 +32,17 @@ Proof.
   exists (mkPf 1 3 14 512 17 12), (mkHdr [] [] 512 1 1 2 224 128 248 1 0 0 0 0 0 0 0 0 0 0 [] 0 0 0 0 [] [] false).
   vm_compute. repeat split; discriminate.
 Qed.
+(** the writes themselves: every device write of a file-data write lies between the first data sector and the end of
+    the device, in a cluster of the file's chain or in a cluster that was free; a FAT flush writes nothing outside
+    the FAT region (C03_fat_persists, last clause) *)
+Theorem C08_data_writes : forall s data c s' ch,
+  dev_ok (s_dev s) -> geom_ok s -> vt (ft s) -> 0 <= s_hint s ->
+  chain s c = (ch, true) -> Forall (inside s) ch -> vol_ok s ->
+  write_data_to_cluster s data c false = Ok s' ->
+  exists l, s_log s' = l ++ s_log s /\
+    Forall (fun w => first_data_sector (s_p s) * BPB_BytsPerSec (s_h s) <= fst w /\ fst w + lenZ (snd w) <= s_dsize s /\
+                     exists x, (In x ch \/ nthZ (s_fat s) x = 0) /\ fst w = cluster_addr s x) l.
+Proof. exact data_write_confined. Qed.
+Print Assumptions C08_data_writes.
 (* C08_io (not proved as one theorem): every EvW of every history lies in the volume; follows from C08_addr + C08_alloc +
    the region accessors of Model/FS.v; on the implementation it is checked by the guarded device. *)
